@@ -588,7 +588,13 @@ class Effect(DaeObject):
                     floatnode = paramnode.find(collada.tag('float4'))
                 paramid = paramnode.get('sid')
                 if floatnode is not None and paramid is not None and len(paramid) > 0 and floatnode.text is not None:
-                    localscope[paramid] = [float(v) for v in floatnode.text.split()]
+                    # a <float> parameter is a number and a <float2/3/4> one a tuple, exactly as the
+                    # literal <float> and <color> values of a shading parameter are
+                    values = tuple([float(v) for v in floatnode.text.split()])
+                    if floatnode.tag == collada.tag('float') and len(values) == 1:
+                        localscope[paramid] = values[0]
+                    else:
+                        localscope[paramid] = values
 
     @staticmethod
     def load(collada, localscope, node):
